@@ -1,0 +1,212 @@
+//go:build verif
+
+package dhcpv6
+
+import "net"
+
+// Contracts for relay encapsulation and the DHCPv6 message builders (property C16 of /verif). Compiled only with the
+// build tag "verif"; adds declarations and comments, changes nothing in the package.
+//
+// x.Code() and x.IsRelay() in these contracts are the values the methods return: every implementation in the program
+// returns a constant or a field, so the engine resolves them by case analysis on the dynamic type (closed world, A4).
+
+//@ define optsNonNil(o) = forall i int :: {o[i]} 0 <= i && i < len(o) ==> o[i] != nil
+
+// GetOne: the first option with the given code; nil exactly when there is none
+//@ contract (Options).GetOne
+//@   noalloc
+//@   loop 0 invariant[noalloc] escapes() == old(escapes())
+//@   ensures[found] result != nil ==> (exists i int :: {o[i]} 0 <= i && i < len(o) && result == o[i] && o[i].Code() == code && (forall j int :: {o[j]} 0 <= j && j < i ==> o[j].Code() != code))
+//@   ensures[none] result == nil ==> (forall j int :: {o[j]} 0 <= j && j < len(o) ==> o[j].Code() != code)
+//@   loop 0 invariant[before] forall j int :: {o[j]} 0 <= j && j <= rangeindex ==> o[j].Code() != code
+
+//@ define isMsg6(d) = d != nil && (typeIs(d, *Message) || typeIs(d, *RelayMessage)) && (typeIs(d, *Message) ==> d.(*Message) != nil) && (typeIs(d, *RelayMessage) ==> d.(*RelayMessage) != nil)
+
+// the payload of an option list: the message of its first relay-message option (nil if that option is not a relay-message
+// option object); firstRelayMsg(o, i) says that position i is that first one
+//@ define firstRelayMsg(o, i) = 0 <= i && i < len(o) && o[i].Code() == 9 && (forall j int :: {o[j]} 0 <= j && j < i ==> o[j].Code() != 9)
+//@ define noRelayMsg(o) = forall j int :: {o[j]} 0 <= j && j < len(o) ==> o[j].Code() != 9
+
+//@ contract (RelayOptions).RelayMessage
+//@   noalloc
+//@   ensures[first] forall i int :: {ro.Options[i]} firstRelayMsg(ro.Options, i) && typeIs(ro.Options[i], *optRelayMsg) ==> result == ro.Options[i].(*optRelayMsg).Msg
+//@   ensures[none] noRelayMsg(ro.Options) ==> result == nil
+//@   ensures[found] result != nil ==> (exists i int :: {ro.Options[i]} firstRelayMsg(ro.Options, i) && typeIs(ro.Options[i], *optRelayMsg) && result == ro.Options[i].(*optRelayMsg).Msg)
+
+// DecapsulateRelay: a plain message is returned as it is; a relay message yields the message of its first relay-message
+// option, or an error when it has none
+//@ contract DecapsulateRelay
+//@   noalloc when err == nil
+//@   ensures[message] typeIs(l, *Message) ==> result0 == l && err == nil
+//@   ensures[relay-result] typeIs(l, *RelayMessage) ==> (err == nil) == (result0 != nil)
+//@   ensures[non-nil] l != nil && err == nil ==> result0 != nil
+//@   ensures[relay-first] typeIs(l, *RelayMessage) ==> (forall i int :: {l.(*RelayMessage).Options.Options[i]} firstRelayMsg(l.(*RelayMessage).Options.Options, i) && typeIs(l.(*RelayMessage).Options.Options[i], *optRelayMsg) ==> result0 == l.(*RelayMessage).Options.Options[i].(*optRelayMsg).Msg)
+//@   ensures[relay-none] typeIs(l, *RelayMessage) && noRelayMsg(l.(*RelayMessage).Options.Options) ==> err != nil
+//@   ensures[chain-step] forall k int :: {ghostMark(k)} l == ghostChain(k) && old(relayAt(ghostChain(k), ghostChain(k+1))) ==> err == nil && result0 == ghostChain(k+1) && ghostMark(k+1) == k+1
+
+// EncapsulateRelay: only relay types are accepted; the new relay message has the given type and addresses, hop count 0
+// around a plain message and one more than the inner relay's otherwise, and exactly one option: the relay-message option
+// holding d
+//@ contract EncapsulateRelay
+//@   ensures[type-check] (err == nil) == (int(mType) == 12 || int(mType) == 13)
+//@   ensures[new] err == nil ==> result0 != nil && fresh(result0)
+//@   ensures[header] err == nil ==> result0.MessageType == mType && result0.LinkAddr == linkAddr && result0.PeerAddr == peerAddr
+//@   ensures[hops] err == nil ==> (typeIs(d, *RelayMessage) ==> int(result0.HopCount) == (int(d.(*RelayMessage).HopCount) + 1) % 256) && (typeIs(d, *Message) ==> int(result0.HopCount) == 0)
+//@   ensures[payload] err == nil ==> len(result0.Options.Options) == 1 && result0.Options.Options[0] != nil && typeIs(result0.Options.Options[0], *optRelayMsg) && result0.Options.Options[0].(*optRelayMsg).Msg == d && fresh(result0.Options.Options)
+
+// encapsulating and decapsulating returns the original message
+//@ contract lemmaEncapDecap
+//@   requires isMsg6(d)
+func lemmaEncapDecap(d DHCPv6, mType MessageType, link, peer net.IP) {
+	r, err := EncapsulateRelay(d, mType, link, peer)
+	if err != nil {
+		return
+	}
+	x, err2 := DecapsulateRelay(r)
+	verifAssert(err2 == nil)
+	verifAssert(x == d)
+}
+
+// ---------- option list update ----------
+
+// firstWithCode(o, c, i): position i is the first option of o with code c; noneWithCode(o, c): there is none
+//@ define firstWithCode(o, c, i) = 0 <= i && i < len(o) && o[i].Code() == c && (forall j int :: {o[j]} 0 <= j && j < i ==> o[j].Code() != c)
+//@ define noneWithCode(o, c) = forall j int :: {o[j]} 0 <= j && j < len(o) ==> o[j].Code() != c
+
+// Update: the first option with the code of the given one is replaced in place; if there is none the option is appended
+//@ contract (*Options).Update
+//@   let c0 = option.Code()
+//@   let L0 = len(*o)
+//@   modifies o, (*o)[0:cap(*o)]
+//@   ensures[replaced] forall i int :: {old((*o)[i])} old(firstWithCode(*o, c0, i)) ==> len(*o) == L0 && (*o)[i] == option && (forall j int :: {(*o)[j]} 0 <= j && j < L0 && j != i ==> (*o)[j] == old((*o)[j]))
+//@   ensures[appended] old(noneWithCode(*o, c0)) ==> len(*o) == L0 + 1 && (*o)[L0] == option && (forall j int :: {(*o)[j]} 0 <= j && j < L0 ==> (*o)[j] == old((*o)[j]))
+//@   ensures[nonnil] old(optsNonNil(*o)) && option != nil ==> optsNonNil(*o)
+//@   loop 0 invariant[before] forall j int :: {(*o)[j]} 0 <= j && j <= rangeindex ==> (*o)[j].Code() != option.Code()
+//@   loop 0 invariant[code] option.Code() == c0
+//@   loop 0 invariant[same] *o == old(*o) && (forall j int :: {(*o)[j]} {old((*o)[j])} 0 <= j && j < L0 ==> (*o)[j] == old((*o)[j]))
+
+// ---------- message builders (no caller-supplied modifiers) ----------
+
+// NewAdvertiseFromSolicit: accepted exactly for a SOLICIT that carries a client identifier; the ADVERTISE keeps the
+// transaction id and carries that very client-identifier option and nothing else
+//@ contract NewAdvertiseFromSolicit
+//@   unroll 1
+//@   requires len(modifiers) == 0 && (sol != nil ==> optsNonNil(sol.Options.Options))
+//@   ensures[accept] (err == nil) == (sol != nil && int(sol.MessageType) == 1 && !old(noneWithCode(sol.Options.Options, 1)))
+//@   ensures[result] (err == nil) == (result0 != nil)
+//@   ensures[advertise] err == nil ==> fresh(result0) && int(result0.MessageType) == 2 && string(result0.TransactionID[:]) == string(sol.TransactionID[:])
+//@   ensures[client-id] err == nil ==> len(result0.Options.Options) == 1 && (forall i int :: {sol.Options.Options[i]} firstWithCode(sol.Options.Options, 1, i) ==> result0.Options.Options[0] == sol.Options.Options[i])
+
+// NewReplyFromMessage: accepted exactly for a SOLICIT with rapid commit or a REQUEST, CONFIRM, RENEW, REBIND, RELEASE or
+// INFORMATION-REQUEST, in each case only with a client identifier; the REPLY keeps the transaction id, carries that very
+// client-identifier option and, for a SOLICIT, the rapid-commit option
+//@ contract NewReplyFromMessage
+//@   unroll 2
+//@   requires len(modifiers) == 0 && (msg != nil ==> optsNonNil(msg.Options.Options))
+//@   let T = int(msg.MessageType)
+//@   ensures[accept] (err == nil) == (msg != nil && ((T == 1 && !old(noneWithCode(msg.Options.Options, 14))) || T == 3 || T == 4 || T == 5 || T == 6 || T == 8 || T == 11) && !old(noneWithCode(msg.Options.Options, 1)))
+//@   ensures[result] (err == nil) == (result0 != nil)
+//@   ensures[reply] err == nil ==> fresh(result0) && int(result0.MessageType) == 7 && string(result0.TransactionID[:]) == string(msg.TransactionID[:])
+//@   ensures[client-id] err == nil ==> len(result0.Options.Options) >= 1 && (forall i int :: {msg.Options.Options[i]} firstWithCode(msg.Options.Options, 1, i) ==> result0.Options.Options[0] == msg.Options.Options[i])
+//@   ensures[rapid-commit] err == nil && T == 1 ==> len(result0.Options.Options) == 2 && result0.Options.Options[1].Code() == 14
+//@   ensures[plain] err == nil && T != 1 ==> len(result0.Options.Options) == 1
+
+// Get: all options with the code, in list order; here: empty exactly when there is none, and its first element is the
+// first option with the code
+//@ contract (Options).Get
+//@   ensures[none] (len(result) == 0) == noneWithCode(o, code)
+//@   ensures[first] forall i int :: {o[i]} firstWithCode(o, code, i) ==> len(result) > 0 && result[0] == o[i]
+//@   ensures[all] forall k int :: {result[k]} 0 <= k && k < len(result) ==> result[k] != nil && result[k].Code() == code
+//@   ensures[fresh] fresh(result)
+//@   loop 0 invariant[none] (len(ret) == 0) == (forall j int :: {o[j]} 0 <= j && j <= rangeindex ==> o[j].Code() != code)
+//@   loop 0 invariant[first] forall i int :: {o[i]} firstWithCode(o, code, i) && i <= rangeindex ==> len(ret) > 0 && ret[0] == o[i]
+//@   loop 0 invariant[all] forall k int :: {ret[k]} 0 <= k && k < len(ret) ==> ret[k] != nil && ret[k].Code() == code
+//@   loop 0 invariant[mem] (ret == nil || allocated(ret)) && len(ret) <= cap(ret)
+
+// IANA / OneIANA: the IA_NA options in list order; OneIANA is the first of them, nil exactly when there is none
+//@ contract (MessageOptions).IANA
+//@   ensures[none] (len(result) == 0) == noneWithCode(mo.Options, 3)
+//@   ensures[first] forall i int :: {mo.Options[i]} firstWithCode(mo.Options, 3, i) ==> len(result) > 0 && result[0] == mo.Options[i].(*OptIANA)
+//@   ensures[fresh] fresh(result)
+//@   loop 0 invariant[len] len(ianas) == rangeindex + 1 && (ianas == nil || allocated(ianas)) && len(ianas) <= cap(ianas)
+//@   loop 0 invariant[first] len(ianas) > 0 ==> ianas[0] == opts[0].(*OptIANA)
+
+//@ contract (MessageOptions).OneIANA
+//@   ensures[none-nil] noneWithCode(mo.Options, 3) ==> result == nil
+//@   ensures[non-nil] result != nil ==> !noneWithCode(mo.Options, 3)
+//@   ensures[first] forall i int :: {mo.Options[i]} firstWithCode(mo.Options, 3, i) ==> result == mo.Options[i].(*OptIANA)
+
+// the random transaction id: any value; touches nothing of the library's data (environment)
+//@ contract GenerateTransactionID
+//@   trusted
+
+// NewMessage without modifiers: a fresh SOLICIT without options
+//@ contract NewMessage
+//@   unroll 1
+//@   requires len(modifiers) == 0
+//@   ensures (err == nil) == (result0 != nil)
+//@   ensures err == nil ==> fresh(result0) && int(result0.MessageType) == 1 && result0.Options.Options == nil
+
+//@ define ianaTyped(o) = forall j int :: {o[j]} 0 <= j && j < len(o) && o[j].Code() == 3 ==> typeIs(o[j], *OptIANA) && o[j].(*OptIANA) != nil
+
+// NewRequestFromAdvertise: accepted only for an ADVERTISE with client identifier, server identifier and IA_NA; the
+// REQUEST (new transaction id) carries, in this order, those very client-identifier and server-identifier options, an
+// elapsed-time option, that very IA_NA, then the IA_PD if the ADVERTISE has one, the option request and the vendor class
+//@ contract NewRequestFromAdvertise
+//@   unroll 1
+//@   requires len(modifiers) == 0 && (adv != nil ==> optsNonNil(adv.Options.Options) && ianaTyped(adv.Options.Options))
+//@   ensures[accept] err == nil ==> int(adv.MessageType) == 2 && !old(noneWithCode(adv.Options.Options, 1)) && !old(noneWithCode(adv.Options.Options, 2)) && !old(noneWithCode(adv.Options.Options, 3))
+//@   ensures[reject-type] adv != nil && int(adv.MessageType) != 2 ==> err != nil
+//@   ensures[reject-cid] adv != nil && old(noneWithCode(adv.Options.Options, 1)) ==> err != nil
+//@   ensures[reject-sid] adv != nil && old(noneWithCode(adv.Options.Options, 2)) ==> err != nil
+//@   ensures[reject-iana] adv != nil && old(noneWithCode(adv.Options.Options, 3)) ==> err != nil
+//@   ensures[request] err == nil ==> result0 != nil && fresh(result0) && int(result0.MessageType) == 3 && len(result0.Options.Options) >= 5
+//@   ensures[client-id] err == nil ==> (forall i int :: {adv.Options.Options[i]} firstWithCode(adv.Options.Options, 1, i) ==> result0.Options.Options[0] == adv.Options.Options[i])
+//@   ensures[server-id] err == nil ==> (forall i int :: {adv.Options.Options[i]} firstWithCode(adv.Options.Options, 2, i) ==> result0.Options.Options[1] == adv.Options.Options[i])
+//@   ensures[elapsed] err == nil ==> result0.Options.Options[2].Code() == 8
+//@   ensures[ia-na] err == nil ==> (forall i int :: {adv.Options.Options[i]} firstWithCode(adv.Options.Options, 3, i) ==> result0.Options.Options[3] == adv.Options.Options[i])
+
+// ---------- relay chains of any depth ----------
+
+// A relay chain is described by a ghost sequence: ghostChain(0) is the outermost relay message, ghostChain(k+1) the
+// message carried by the first relay-message option of ghostChain(k), ghostChain(ghostDepth(0)) the innermost (plain)
+// message. The two functions are abstract (uninterpreted): a contract that assumes relayChain(x) for them holds for every
+// finite well-formed chain starting at x, whatever its depth. Nothing is required of callers (the assumption is the
+// antecedent of postconditions, never a precondition).
+//@ contract ghostChain
+//@   trusted
+func ghostChain(k int) DHCPv6 { return nil }
+
+//@ contract ghostDepth
+//@   trusted
+//@   ensures result >= 1
+func ghostDepth(z int) int { return 1 }
+
+// ghostMark(k) == k: the term that triggers the per-level facts of a chain (they mention level k+1, so triggering them on
+// ghostChain itself would never stop); contracts introduce marks exactly for the levels they talk about
+//@ contract ghostMark
+//@   trusted
+//@   ensures result == k
+func ghostMark(k int) int { return k }
+
+//@ define relayAt(x, y) = typeIs(x, *RelayMessage) && x.(*RelayMessage) != nil && (exists i int :: {x.(*RelayMessage).Options.Options[i]} firstRelayMsg(x.(*RelayMessage).Options.Options, i) && typeIs(x.(*RelayMessage).Options.Options[i], *optRelayMsg) && x.(*RelayMessage).Options.Options[i].(*optRelayMsg).Msg == y) && y != nil
+//@ define relayChain(x) = ghostChain(0) == x && ghostMark(0) == 0 && (forall k int :: {ghostMark(k)} 0 <= k && k < ghostDepth(0) ==> relayAt(ghostChain(k), ghostChain(k+1))) && typeIs(ghostChain(ghostDepth(0)), *Message) && ghostChain(ghostDepth(0)).(*Message) != nil
+
+// GetInnerMessage: for every well-formed chain, whatever its depth, the innermost message is returned; nothing is modified
+//@ contract (*RelayMessage).GetInnerMessage
+//@   ensures[innermost] old(relayChain(DHCPv6(r))) ==> err == nil && result0 == ghostChain(ghostDepth(0)).(*Message)
+//@   loop 0 invariant[heap] sameheap()
+//@   loop 0 invariant[on-chain] old(relayChain(DHCPv6(r))) ==> (exists k int :: {ghostMark(k)} 0 <= k && k < ghostDepth(0) && p == ghostChain(k) && ghostMark(k) == k)
+//@   after `p, err = DecapsulateRelay(p)` assert[step] old(relayChain(DHCPv6(r))) ==> err == nil && (exists k int :: {ghostMark(k)} 1 <= k && k <= ghostDepth(0) && p == ghostChain(k) && ghostMark(k) == k)
+
+// DecapsulateRelayIndex: index -1 yields the innermost relay message of the chain (the one that carries the plain
+// message), whatever the depth; index i >= 0 the message i+1 levels down
+//@ contract DecapsulateRelayIndex
+//@   ensures[last-relay] old(relayChain(l)) && index == -1 ==> err == nil && result0 == ghostChain(ghostDepth(0) - 1)
+//@   ensures[level] old(relayChain(l)) && 0 <= index && index < ghostDepth(0) ==> err == nil && result0 == ghostChain(index + 1)
+//@   loop 0 invariant[heap] sameheap()
+//@   loop 0 invariant[non-nil] l != nil
+//@   loop 0 invariant[on-chain] old(relayChain(l)) ==> (exists k int :: {ghostMark(k)} 0 <= k && k < ghostDepth(0) && l == ghostChain(k) && ghostMark(k) == k)
+//@   loop 1 invariant[heap] sameheap()
+//@   loop 1 invariant[non-nil] l != nil
+//@   loop 1 invariant[on-chain] old(relayChain(l)) && index < ghostDepth(0) ==> 0 <= i && i <= index + 1 && l == ghostChain(i) && ghostMark(i) == i
